@@ -263,6 +263,7 @@ func propC14(w *World, r *Run) {
 	ruleNoNestedStorage(w, r, a, "C14.e")
 	ruleCloseAlways(w, r, a, "C14.e")
 	ruleCloseIsRollback(w, r, "C14.e")
+	ruleSumDBConstants(w, r) // tile-derived proofs: constants and coordinate plumbing (reported under C18.* rule ids)
 }
 
 func init() {
